@@ -130,6 +130,8 @@ def check(run):
     run.floor('C15-R2', 60, 'obligations')
     run.floor('C15-R3', 60, 'obligations')
     run.floor('C15-R4', 12, 'obligations')
+    from ..cachekey import check_caches
+    check_caches(run, [m for k, m in prog.modules.items() if k.startswith('cherab.tools.observers')], 'C15-K')
 
 
 def _key(ci, fn, what):
